@@ -312,7 +312,7 @@ func parent(c *vf.Ctx) {
 		c.Count("evaluations", 0)
 		return
 	}
-	c.SetRule("a run drives one real timed.Queue / Executor / TaskExecutor: either a scripted gated schedule (re-schedule an identifier while its callback is held at a gate; Cancel(id) while the callback is held; Cancel while a worker is parked in Poll's select holding the element, before and after Shutdown; Cancel of an element in the heap; size bound filled without a poller; bounded queue (max 1-3) kept full behind gated workers, then a pending identifier re-scheduled with an earlier/equal/later time, or a new element added after a Cancel freed a slot; far-future (year 2262 boundary +-1 s, 3000, 9999), far-past (before 1677, year 1, zero Time) and UTC / fixed-zone / no-monotonic representations mixed with due elements in one heap, added in seeded order while all workers are gated; every Shutdown flag combination with pending elements) or a seeded random history (1-4 clients x 3-8 operations: Add/ExecuteAt with offsets -5..+40 ms, element Cancel, Cancel(id), gate openings, jitter; 1-4 workers; max size 0/2/5; every flag combination; Shutdown after or concurrent with the clients), plus timer-free stress histories for one window (2-4 clients adding due elements back to back while client 0 calls Shutdown) and for TaskExecutor.Cancel(id) racing with the start of the task under heap-lock contention. evaluations = scheduled elements whose whole life was checked at structural quiescence; distinct_nontrivial = distinct (scenario, kind, workers, max size, flags, clients, shutdown mode, observed windows) of runs in which at least one element was delivered or prevented")
+	c.SetRule("a run drives one real timed.Queue / Executor / TaskExecutor: either a scripted gated schedule (re-schedule an identifier while its callback is held at a gate; Cancel(id) while the callback is held; Cancel while a worker is parked in Poll's select holding the element, before and after Shutdown; Cancel of an element in the heap; size bound filled without a poller; bounded queue (max 1-3) kept full behind gated workers, then a pending identifier re-scheduled with an earlier/equal/later time, or a new element added after a Cancel freed a slot; every entry point (ExecuteAt / ExecuteAfter) as first and as rescheduling call of one identifier with instants/delays from {far negative, -1ns, 0, +1ns, small, far future, zero Time, past} behind gated workers and on an idle executor; far-future (year 2262 boundary +-1 s, 3000, 9999), far-past (before 1677, year 1, zero Time) and UTC / fixed-zone / no-monotonic representations mixed with due elements in one heap, added in seeded order while all workers are gated; every Shutdown flag combination with pending elements) or a seeded random history (1-4 clients x 3-8 operations: Add/ExecuteAt with offsets -5..+40 ms, element Cancel, Cancel(id), gate openings, jitter; 1-4 workers; max size 0/2/5; every flag combination; Shutdown after or concurrent with the clients), plus timer-free stress histories for one window (2-4 clients adding due elements back to back while client 0 calls Shutdown) and for TaskExecutor.Cancel(id) racing with the start of the task under heap-lock contention. evaluations = scheduled elements whose whole life was checked at structural quiescence; distinct_nontrivial = distinct (scenario, kind, workers, max size, flags, clients, shutdown mode, observed windows) of runs in which at least one element was delivered or prevented")
 	scripts := len(scriptList())
 	nPlain := c.Pick(2400, 32000)
 	nRace := c.Pick(1200, 16000)
@@ -376,6 +376,13 @@ func parent(c *vf.Ctx) {
 	c.Require("far_future_elements_delivered_by_ignore_flush", 100)
 	c.Require("far_past_elements_delivered", 300)
 	c.Require("other_representation_elements_delivered", 300)
+	c.Require("pattern:gated:resched-entrypoints", 250)
+	c.Require("pattern:gated:entrypoint-idle-due", 30)
+	for _, k := range []string{"at>at", "at>after", "after>at", "after>after"} {
+		c.Require("resched_pairs:"+k, 60)
+	}
+	c.Require("execute_after_calls", 2000)
+	c.Require("execute_after_calls_with_nonpositive_delay", 500)
 	c.Require("cancel_rule_armed", 50)
 	c.Require("window_resched_during_callback", 20)
 	c.Require("not_early_confirmed", 1000)
